@@ -10,6 +10,7 @@ from ..core import Violation
 from ..world import World
 
 PID = 'C07'
+CB_FAULT = 'application callback fault'
 RULE = ('2-4 hosts (real Server/AsyncServer + PubSubManager/'
         'AsyncPubSubManager subclasses over an in-memory ordered channel '
         'carrying pickled messages, the real listener loop body run per '
@@ -20,9 +21,17 @@ RULE = ('2-4 hosts (real Server/AsyncServer + PubSubManager/'
         'write-only manager, disconnect via any host, client DISCONNECT, '
         'client ACKs; schedules: immediate (every host drains after every '
         'op: per-client event sequences, rooms and callbacks must equal the '
-        "reference's) and delayed (generated consumption steps: at most "
-        'once, eligibility inside the flight window, exactness when no '
-        'membership change touches the window). Non-trivial: >=2 hosts with '
+        "reference's) and delayed (generated consumption steps, one message "
+        'per step; a membership operation or disconnect that travels '
+        'through the channel is applied to the single server at the step '
+        "where the client's own host consumes it - its place in the "
+        'equivalent single-server history; at most once, eligibility inside '
+        'the flight window, exactness when no membership change touches the '
+        'window, equal rooms once everything is consumed). Application '
+        'callbacks may raise or (asyncio) end with CancelledError; a '
+        'listener loop that ends for any reason but end-of-stream, and a '
+        'channel that grows beyond any legitimate history (hosts answering '
+        'each other), are violations. Non-trivial: >=2 hosts with '
         'clients, an op issued on a host that does not own the target, and '
         'a cross-host callback or a room with members on two hosts (delayed: '
         'a membership change inside a flight window).')
@@ -89,6 +98,9 @@ def strategy(tier):
     return st.fixed_dictionaries({
         'aio': st.booleans(), 'nhosts': st.integers(2, 4),
         'delayed': st.booleans(),
+        # application callbacks raise after they ran ('cancel': asyncio
+        # coroutine callbacks end with CancelledError)
+        'cb_fault': st.sampled_from([None, None, None, 'raise', 'cancel']),
         'init': st.lists(st.tuples(hi, st.integers(0, 1)), min_size=3,
                          max_size=6),
         'init_rooms': st.lists(st.tuples(ci, room), min_size=2, max_size=6),
@@ -233,14 +245,65 @@ def _run(case, cl, ref):
                 raise Violation('rooms-differ', 'step %s client %d: cluster '
                                 '%r, single server %r' % (step, i, a, b))
 
+    cb_fault = case.get('cb_fault')
+
     def mk_cb(log, hi, k):
         if aio:
             async def cb(*args):
                 log.append((hi, k, list(args)))
+                if cb_fault == 'cancel':
+                    # the callback awaited something that was cancelled
+                    import asyncio
+                    raise asyncio.CancelledError()
+                if cb_fault:
+                    raise RuntimeError(CB_FAULT)
         else:
             def cb(*args):
                 log.append((hi, k, list(args)))
+                if cb_fault:
+                    raise RuntimeError(CB_FAULT)
         return cb
+
+    # delayed schedule: a membership operation that travels through the
+    # channel takes effect on the single server when the host that holds the
+    # client consumes it (that is its place in the equivalent single-server
+    # history; operations on clients of different hosts commute)
+    deferred = {}       # bus index -> operation
+    applied = set()     # (bus index, host)
+
+    def ref_close_part(hidx, ns, rroom):
+        for i in live():
+            rc = ref.clients[i]
+            if cl.clients[i]['host'] == hidx and rc['ns'] == ns and \
+                    rroom in ref.sio.rooms(rc['sid'], namespace=ns):
+                ref.do(ref.sio.leave_room(rc['sid'], rroom, namespace=ns))
+
+    def apply_deferred():
+        did = False
+        for idx in sorted(deferred):
+            d = deferred[idx]
+            for h in cl.hosts:
+                if (idx, h.idx) in applied or idx not in h.mgr.consumed_at:
+                    continue
+                applied.add((idx, h.idx))
+                if d[0] == 'close':
+                    if h.idx != d[1]:
+                        ref_close_part(h.idx, d[2], d[3])
+                        did = True
+                elif cl.clients[d[1]]['host'] == h.idx:
+                    rc = ref.clients[d[1]]
+                    if not cl.clients[d[1]]['alive']:
+                        continue
+                    did = True
+                    if d[0] == 'disconnect':
+                        ref.do(ref.sio.disconnect(rc['sid'],
+                                                  namespace=rc['ns']))
+                        cl.clients[d[1]]['alive'] = False
+                        ref.mark_dead(d[1])
+                    else:
+                        ref.do(getattr(ref.sio, d[0])(rc['sid'], d[2],
+                                                      namespace=rc['ns']))
+        return did
 
     all_ops = list(case['ops'])
     snapshot()      # snapshots[0]: initial state; snapshots[s+1]: after step s
@@ -254,9 +317,11 @@ def _run(case, cl, ref):
                     connect(op['h'], NSS[op['ns']])
             elif k == 'consume':
                 if delayed:
-                    cl.hosts[op['h'] % nh].consume(op['k'])
-                    for t_, info in emits.items():
-                        pass
+                    # one message per step, so that the membership on the
+                    # single server is recorded between any two of them
+                    cl.hosts[op['h'] % nh].consume(1)
+                    if apply_deferred():
+                        member_steps.append(step)
             elif not lv and k != 'close_room' and not (
                     k == 'emit' and not isinstance(op['to'], dict)):
                 return
@@ -266,17 +331,30 @@ def _run(case, cl, ref):
                 via = cl.hosts[op['via'] % nh]
                 room, rroom = room_pair(op['room'])
                 fn = 'enter_room' if k == 'enter' else 'leave_room'
+                n0 = len(cl.bus)
                 via.h.do(getattr(via.sio, fn)(c['sid'], room, namespace=c['ns']))
-                ref.do(getattr(ref.sio, fn)(rc['sid'], rroom,
-                                            namespace=rc['ns']))
+                if delayed and len(cl.bus) == n0 + 1:
+                    # handed to the client's own host through the channel:
+                    # it takes effect when that host consumes the message
+                    deferred[n0] = (fn, ci, rroom)
+                else:
+                    ref.do(getattr(ref.sio, fn)(rc['sid'], rroom,
+                                                namespace=rc['ns']))
                 if via.idx != c['host']:
                     cross_host[0] = True
             elif k == 'close_room':
                 via = cl.hosts[op['via'] % nh]
                 room, rroom = room_pair(op['room'])
                 ns = NSS[op['ns']]
+                n0 = len(cl.bus)
                 via.h.do(via.sio.close_room(room, namespace=ns))
-                ref.do(ref.sio.close_room(rroom, namespace=ns))
+                if delayed and len(cl.bus) == n0 + 1:
+                    # the issuing host closes its part at once, every other
+                    # host when it consumes the message
+                    ref_close_part(via.idx, ns, rroom)
+                    deferred[n0] = ('close', via.idx, ns, rroom)
+                else:
+                    ref.do(ref.sio.close_room(rroom, namespace=ns))
             elif k == 'emit':
                 ns = NSS[op['ns']]
                 to = op['to']
@@ -396,10 +474,15 @@ def _run(case, cl, ref):
                 ci = lv[op['c'] % len(lv)]
                 c, rc = cl.clients[ci], ref.clients[ci]
                 via = cl.hosts[op['via'] % nh]
+                n0 = len(cl.bus)
                 via.h.do(via.sio.disconnect(c['sid'], namespace=c['ns']))
-                ref.do(ref.sio.disconnect(rc['sid'], namespace=rc['ns']))
-                c['alive'] = False
-                ref.mark_dead(ci)
+                if delayed and len(cl.bus) == n0 + 1:
+                    # takes effect when the client's own host consumes it
+                    deferred[n0] = ('disconnect', ci, None)
+                else:
+                    ref.do(ref.sio.disconnect(rc['sid'], namespace=rc['ns']))
+                    c['alive'] = False
+                    ref.mark_dead(ci)
                 if via.idx != c['host']:
                     cross_host[0] = True
             elif k == 'cdisc':
@@ -435,16 +518,35 @@ def _run(case, cl, ref):
             multi_host_room[0] = True
     # ---- end of history: everything drains
     cl.bus.step = len(all_ops)
+    if delayed:
+        # one message at a time, recording the single server's membership
+        # after each (consumed_at / snapshots keep counting steps)
+        for _ in range(100000):
+            busy = [h for h in cl.hosts if h.unread()]
+            if not busy:
+                break
+            for h in busy:
+                h.consume(1)
+                if apply_deferred():
+                    member_steps.append(cl.bus.step)
+                snapshot()
+                cl.bus.step += 1
     cl.drain_all()
     collect()
     for h in cl.hosts:
-        errs = [e for e in h.logged if e[0] == 'exception']
+        if h.died:
+            raise Violation('listener-died', 'the pub/sub listener of host '
+                            '%d left its loop before the channel ended'
+                            % h.idx)
+        errs = [e for e in h.logged if e[0] == 'exception' and
+                CB_FAULT not in str(e[2])]
         if errs:
             raise Violation('listener-logged-exception', repr(errs[0]))
     if not delayed:
         compare_now('end')
         compare_rooms('end')
     else:
+        compare_rooms('end')
         _delayed_oracle(cl, ref, received, ref_received, cb_log, ref_cb_log,
                         labels)
         _flight_oracle(cl, ref, received, emits, snapshots, member_steps,
